@@ -74,6 +74,15 @@ func reachesRTUParser(c *Ctx, fn *ssa.Function) bool {
 						return true
 					}
 				}
+				// a parser handed on as a function value (to a shared checking helper) is reached too
+				for _, op := range in.Operands(nil) {
+					if op == nil || *op == nil {
+						continue
+					}
+					if fv, ok := (*op).(*ssa.Function); ok && walk(fv) {
+						return true
+					}
+				}
 			}
 		}
 		return false
